@@ -128,7 +128,14 @@ impl EventGen for Container {
                     break;
                 }
             }
-            if let (true, Some(text)) = (self.0.is_graphics_element(), &inner_text) {
+            if self.0.is_graphics_element() && inner_events.is_empty() {
+                // `<rect ...></rect>` is just another way of writing `<rect .../>`
+                let mut el = self.0.clone();
+                if let Some((start, _end)) = self.0.event_range {
+                    el.event_range = Some((start, start)); // emulate an Empty element
+                }
+                el.generate_events(context)
+            } else if let (true, Some(text)) = (self.0.is_graphics_element(), &inner_text) {
                 let mut el = self.0.clone();
                 el.set_attr("text", text);
                 if let Some((start, _end)) = self.0.event_range {
